@@ -486,12 +486,15 @@ package models
 //@   ensures {C18} len(s.PingRequests) == 1 && fresh(s.PingRequests) && exists nid: uint32 :: pending(s, nid)
 //@   emits {C18} [sendPingRequest(s)]
 
+//@ spec fn lat(s *SignedLatency, k uint32) float64 = real(truncdiv(s.PingRequests[k].End - s.PingRequests[k].Start, 1000))
+
 //@ func (*models.SignedLatency).OnPing
 //@   property C18
 //@   event
 //@   let id = pingReqID
 //@   requires pingReqID in s.PingRequests ==> s.sender != nil
 //@   requires forall k: uint32 :: pending(s, k) ==> s.Iteration >= 1
+//@   requires len(s.PingRequests) < 4294967296
 //@   modifies s.Iteration, contents(s.PingRequests), all ghost.*
 //@   allocates
 //@   behaviour unknown:
@@ -515,11 +518,18 @@ package models
 //@     ensures {C18} result == nil ==> marshaled(D, hagallpb.LatencyData).ClientId == s.ClientID && marshaled(D, hagallpb.LatencyData).SessionId == s.SessionID && marshaled(D, hagallpb.LatencyData).WalletAddress == s.WalletAddress && marshaled(D, hagallpb.LatencyData).IterationCount == len(s.PingRequests)
 //@     ensures {C18} result == nil ==> len(marshaled(D, hagallpb.LatencyData).PingRequestIds) == len(s.PingRequests) && forall j: int :: 0 <= j && j < len(marshaled(D, hagallpb.LatencyData).PingRequestIds) ==> marshaled(D, hagallpb.LatencyData).PingRequestIds[j] in s.PingRequests
 //@     ensures {C18} result == nil ==> forall k: uint32 :: k in s.PingRequests ==> exists j: int :: 0 <= j && j < len(marshaled(D, hagallpb.LatencyData).PingRequestIds) && marshaled(D, hagallpb.LatencyData).PingRequestIds[j] == k
+//@     ensures {C18} result == nil ==> marshaled(D, hagallpb.LatencyData).Min <= marshaled(D, hagallpb.LatencyData).Max && marshaled(D, hagallpb.LatencyData).Last == lat(s, id)
+//@     ensures {C18} result == nil ==> marshaled(D, hagallpb.LatencyData).Min <= marshaled(D, hagallpb.LatencyData).Last && marshaled(D, hagallpb.LatencyData).Last <= marshaled(D, hagallpb.LatencyData).Max
+//@     ensures {C18} result == nil ==> forall k: uint32 :: k in s.PingRequests ==> marshaled(D, hagallpb.LatencyData).Min <= lat(s, k) && lat(s, k) <= marshaled(D, hagallpb.LatencyData).Max
+//@     ensures {C18} result == nil && len(s.PingRequests) >= 2 ==> marshaled(D, hagallpb.LatencyData).Min <= marshaled(D, hagallpb.LatencyData).P95 && marshaled(D, hagallpb.LatencyData).P95 <= marshaled(D, hagallpb.LatencyData).Max
 //@   complete behaviours
 //@   disjoint behaviours
 //@   loop 1:
-//@     invariant len($latencies) == N
-//@     invariant unchanged(s.Iteration) || true
+//@     invariant real(N) * $min <= $mean && $mean <= real(N) * $max
+//@     invariant len($latencies) == N && (N == 0 || fresh($latencies))
+//@     invariant forall k: uint32 :: k in V ==> N >= 1 && k in s.PingRequests && $min <= lat(s, k) && lat(s, k) <= $max
+//@     invariant forall j: int :: 0 <= j && j < len($latencies) ==> $min <= $latencies[j] && $latencies[j] <= $max
+//@     invariant N >= 1 ==> $min <= $max
 //@   loop 2:
 //@     ghost pos
 //@     update pos[$k] = len($pingRequestIDs) - 1
